@@ -377,6 +377,7 @@ func checkC12() func(w *SketchWorld, slot int) []mc.Fail {
 		if len(each) != nb {
 			fail("C12.foreach", "ForEach yielded %d bins, the content has %d non-empty bins", len(each), nb)
 		}
+		beforeStops := SketchContent(q)
 		for j := 0; j < len(each); j++ {
 			calls := 0
 			q.ForEach(func(v, c float64) bool { calls++; return calls == j+1 })
@@ -384,6 +385,9 @@ func checkC12() func(w *SketchWorld, slot int) []mc.Fail {
 				fail("C12.foreach-stop", "ForEach was called %d times after the callback asked to stop at call %d", calls, j+1)
 				break
 			}
+		}
+		if after := SketchContent(q); after != beforeStops || q.GetCount() != count {
+			fail("C12.foreach-stop", "iterations stopped early changed the sketch\n  before: %s count=%v\n  after:  %s count=%v", beforeStops, count, after, q.GetCount())
 		}
 		return
 	}
